@@ -3,6 +3,7 @@
    maintenance and status replies, a classification of every transmission of a poll, and the
    theorems of DESIGN.md section 4 / C12 built on them. *)
 From PB Require Import Common Tables FdlTables Telegram Phy TokenRing Params Fdl FdlProofs FdlStepProofs.
+From PB Require C02Proofs LasRep LasOracle.
 
 (* ------------------------------------------------------------------------------------------ *)
 (* the telegrams the station sends by itself                                                     *)
@@ -46,6 +47,221 @@ Proof.
       destruct (IH _ _ _ _ _ Hp1 H) as [X|[pre [suf [t' [Hb [Hd [Hq Hr]]]]]]]; [left; exact X|].
       right. exists (firstn n buf ++ pre), suf, t'. split; [|repeat split; assumption].
       rewrite <- app_assoc, <- Hb. symmetry. apply firstn_skipn.
+Qed.
+
+(* ------------------------------------------------------------------------------------------ *)
+(* C12_sweep_bound: arithmetic of the GAP sweep                                                 *)
+
+(* offset of x from TS on the circle of the addresses 0 .. HSA-1 *)
+Definition off (t H x : Z) : Z := if t <=? x then x - t else x - t + H.
+(* number of addresses in the GAP: those with offset 1 .. gap_size *)
+Definition gap_size (t n H : Z) : Z := if n =? t then H - 1 else off t H n - 1.
+Definition nxt (H c : Z) : Z := if c =? H - 1 then 0 else c + 1.
+
+Lemma off_range t H x : 0 <= t < H -> 0 <= x < H -> 0 <= off t H x < H.
+Proof. unfold off. intros. destruct (Z.leb_spec t x); lia. Qed.
+
+Lemma off_inj t H x y : 0 <= t < H -> 0 <= x < H -> 0 <= y < H -> off t H x = off t H y -> x = y.
+Proof. unfold off. intros. destruct (Z.leb_spec t x); destruct (Z.leb_spec t y); lia. Qed.
+
+Lemma off_self t H : off t H t = 0.
+Proof. unfold off. rewrite Z.leb_refl. lia. Qed.
+
+Lemma nxt_range H c : 0 <= c < H -> 0 <= nxt H c < H.
+Proof. unfold nxt. intros. destruct (Z.eqb_spec c (H - 1)); lia. Qed.
+
+Lemma off_nxt t H c : 0 <= t < H -> 0 <= c < H ->
+  off t H (nxt H c) = if off t H c =? H - 1 then 0 else off t H c + 1.
+Proof.
+  unfold off, nxt. intros Ht Hc.
+  destruct (Z.eqb_spec c (H - 1)); destruct (Z.leb_spec t c);
+    repeat match goal with |- context [?a <=? ?b] => destruct (Z.leb_spec a b) end;
+    repeat match goal with |- context [?a =? ?b] => destruct (Z.eqb_spec a b) end; lia.
+Qed.
+
+Lemma gap_size_range t n H : 0 <= t < H -> 0 <= n < H -> 0 <= gap_size t n H <= H - 1.
+Proof.
+  unfold gap_size, off. intros. destruct (Z.eqb_spec n t); [lia|]. destruct (Z.leb_spec t n); lia.
+Qed.
+
+Lemma in_gapb_off t n H x : 0 <= t < H -> 0 <= n < H -> 0 <= x < H ->
+  in_gapb t n x = (1 <=? off t H x) && (off t H x <=? gap_size t n H).
+Proof.
+  unfold in_gapb, gap_size, off. intros Ht Hn Hx.
+  destruct (Z.ltb_spec t n); destruct (Z.eqb_spec n t); try lia;
+    destruct (Z.leb_spec t x); destruct (Z.leb_spec t n); try lia;
+    repeat match goal with |- context [?a <? ?b] => destruct (Z.ltb_spec a b) end;
+    repeat match goal with |- context [?a <=? ?b] => destruct (Z.leb_spec a b) end; cbn; try reflexivity; lia.
+Qed.
+
+(* the GAP step of a visit as a pure function of (TS, NS, HSA, gap_wait_rotations) *)
+Definition gnext (t n H c : Z) : gap_state :=
+  if in_gapb t n (nxt H c) then GapDoPoll (nxt H c) else GapWaiting 0.
+Definition gstep (t n H gw : Z) (g : gap_state) : gap_state :=
+  match g with
+  | GapWaiting rc => if gw <? rc then gnext t n H t else GapWaiting (rc + 1)
+  | GapDoPoll c => gnext t n H c
+  end.
+
+Definition gap_wf (H gw : Z) (g : gap_state) : Prop :=
+  match g with GapDoPoll c => 0 <= c < H | GapWaiting rc => 0 <= rc end.
+
+(* number of visits until address a is polled *)
+Definition visits_until (t n H gw a : Z) (g : gap_state) : Z :=
+  let k := off t H a in
+  let N := gap_size t n H + 1 in
+  match g with
+  | GapDoPoll c =>
+      let j := off t H c in
+      if j <? k then k - j else (if j <? N - 1 then N - j else 1) + (gw + 1) + k
+  | GapWaiting rc => if gw <? rc then k else (gw + 1 - rc) + k
+  end.
+
+Lemma gnext_off t n H c : 0 <= t < H -> 0 <= n < H -> 0 <= c < H ->
+  let j' := if off t H c =? H - 1 then 0 else off t H c + 1 in
+  gnext t n H c = if (1 <=? j') && (j' <=? gap_size t n H) then GapDoPoll (nxt H c) else GapWaiting 0.
+Proof.
+  intros Ht Hn Hc. cbv zeta. unfold gnext.
+  rewrite (in_gapb_off t n H (nxt H c) Ht Hn (nxt_range H c Hc)), (off_nxt t H c Ht Hc). reflexivity.
+Qed.
+
+Lemma gstep_wf t n H gw g : 0 <= t < H -> 0 <= n < H -> gap_wf H gw g -> gap_wf H gw (gstep t n H gw g).
+Proof.
+  intros Ht Hn Hw. unfold gstep, gnext. destruct g as [rc|c]; cbn in Hw.
+  - destruct (gw <? rc); [|cbn; lia]. destruct (in_gapb _ _ _); cbn; [apply nxt_range; lia|lia].
+  - destruct (in_gapb _ _ _); cbn; [apply nxt_range; lia|lia].
+Qed.
+
+(* the countdown: every visit brings the poll of a one visit nearer *)
+Lemma visits_until_step t n H gw a g :
+  0 <= t < H -> 0 <= n < H -> 0 <= gw -> 0 <= a < H -> in_gap t n a -> gap_wf H gw g ->
+  1 <= visits_until t n H gw a g <= gap_size t n H + gw + 2 /\
+  (visits_until t n H gw a g = 1 -> gstep t n H gw g = GapDoPoll a) /\
+  (1 < visits_until t n H gw a g -> visits_until t n H gw a (gstep t n H gw g) = visits_until t n H gw a g - 1).
+Proof.
+  intros Ht Hn Hgw Ha Hin Hw.
+  apply in_gapb_spec in Hin. rewrite (in_gapb_off t n H a Ht Hn Ha) in Hin.
+  apply andb_true_iff in Hin. destruct Hin as [Hk1 Hk2]. apply Z.leb_le in Hk1. apply Z.leb_le in Hk2.
+  pose proof (gap_size_range t n H Ht Hn) as Hgs.
+  destruct g as [rc|c]; cbn in Hw.
+  - (* Waiting *)
+    unfold visits_until, gstep. destruct (Z.ltb_spec gw rc) as [Hrc|Hrc].
+    + (* the sweep restarts at TS *)
+      rewrite (gnext_off t n H t Ht Hn Ht). rewrite off_self.
+      destruct (Z.eqb_spec 0 (H - 1)) as [E|E]; [lia|].
+      replace ((1 <=? 0 + 1) && (0 + 1 <=? gap_size t n H)) with true
+        by (symmetry; apply andb_true_iff; split; apply Z.leb_le; lia).
+      split; [lia|]. split.
+      * intros E1. f_equal. apply (off_inj t H); try assumption; [apply nxt_range; lia|].
+        rewrite off_nxt, off_self by lia. destruct (Z.eqb_spec 0 (H - 1)); lia.
+      * intros Hgt. cbv zeta. rewrite off_nxt, off_self by lia. destruct (Z.eqb_spec 0 (H - 1)); [lia|].
+        destruct (Z.ltb_spec (0 + 1) (off t H a)); lia.
+    + split; [lia|]. split; [intros; lia|]. intros _.
+      destruct (Z.ltb_spec gw (rc + 1)); lia.
+  - (* DoPoll *)
+    pose proof (off_range t H c Ht Hw) as Hj.
+    unfold visits_until, gstep. rewrite (gnext_off t n H c Ht Hn Hw). cbv zeta.
+    destruct (Z.ltb_spec (off t H c) (off t H a)) as [Hlt|Hge].
+    + destruct (Z.eqb_spec (off t H c) (H - 1)) as [E|E]; [lia|].
+      replace ((1 <=? off t H c + 1) && (off t H c + 1 <=? gap_size t n H)) with true
+        by (symmetry; apply andb_true_iff; split; apply Z.leb_le; lia).
+      split; [lia|]. split.
+      * intros E1. f_equal. apply (off_inj t H); try assumption; [apply nxt_range; lia|].
+        rewrite off_nxt by lia. destruct (Z.eqb_spec (off t H c) (H - 1)); lia.
+      * intros Hgt. rewrite off_nxt by lia. destruct (Z.eqb_spec (off t H c) (H - 1)); [lia|].
+        destruct (Z.ltb_spec (off t H c + 1) (off t H a)); lia.
+    + replace (gap_size t n H + 1 - 1) with (gap_size t n H) by lia.
+      destruct (Z.ltb_spec (off t H c) (gap_size t n H)) as [Hin2|Hout].
+      * destruct (Z.eqb_spec (off t H c) (H - 1)) as [E|E]; [lia|].
+        replace ((1 <=? off t H c + 1) && (off t H c + 1 <=? gap_size t n H)) with true
+          by (symmetry; apply andb_true_iff; split; apply Z.leb_le; lia).
+        split; [lia|]. split; [intros; lia|]. intros _.
+        rewrite off_nxt by lia. destruct (Z.eqb_spec (off t H c) (H - 1)); [lia|].
+        destruct (Z.ltb_spec (off t H c + 1) (off t H a)); [lia|].
+        replace (gap_size t n H + 1 - 1) with (gap_size t n H) by lia.
+        destruct (Z.ltb_spec (off t H c + 1) (gap_size t n H)); lia.
+      * replace ((1 <=? (if off t H c =? H - 1 then 0 else off t H c + 1)) &&
+                 ((if off t H c =? H - 1 then 0 else off t H c + 1) <=? gap_size t n H)) with false.
+        2:{ symmetry. destruct (Z.eqb_spec (off t H c) (H - 1)); [reflexivity|].
+            apply andb_false_iff. right. apply Z.leb_gt. lia. }
+        split; [lia|]. split; [intros; lia|]. intros _.
+        destruct (Z.ltb_spec gw 0); lia.
+Qed.
+
+Fixpoint giter (t n H gw : Z) (g : gap_state) (m : nat) : list gap_state :=
+  match m with O => [] | S m' => let g' := gstep t n H gw g in g' :: giter t n H gw g' m' end.
+
+Lemma sweep_bound_pure t n H gw a : 0 <= t < H -> 0 <= n < H -> 0 <= gw -> 0 <= a < H -> in_gap t n a ->
+  forall m g, gap_wf H gw g -> visits_until t n H gw a g = Z.of_nat (S m) ->
+  exists l, giter t n H gw g (S m) = l ++ [GapDoPoll a].
+Proof.
+  intros Ht Hn Hgw Ha Hin. induction m as [|m IH]; intros g Hw Hv.
+  - destruct (visits_until_step t n H gw a g Ht Hn Hgw Ha Hin Hw) as [_ [H1 _]].
+    exists []. cbn [giter app]. rewrite H1 by lia. reflexivity.
+  - destruct (visits_until_step t n H gw a g Ht Hn Hgw Ha Hin Hw) as [_ [_ H2]].
+    destruct (IH (gstep t n H gw g) (gstep_wf _ _ _ _ _ Ht Hn Hw)) as [l Hl]; [rewrite H2; lia|].
+    exists (gstep t n H gw g :: l). change (giter t n H gw g (S (S m))) with (gstep t n H gw g :: giter t n H gw (gstep t n H gw g) (S m)).
+    rewrite Hl. reflexivity.
+Qed.
+
+(* ------------------------------------------------------------------------------------------ *)
+(* set_next_station(a): a becomes NS, the LAS gets a and loses everything strictly between      *)
+
+Lemma set_next_station_effect r a r' :
+  length (r_las r) = 128%nat -> 0 <= r_ts r < 128 -> a <> r_ts r ->
+  set_next_station r a = Ok r' ->
+  0 <= a < 128 /\ r_ns r' = a /\ r_ts r' = r_ts r /\ r_state r' = r_state r /\ length (r_las r') = 128%nat /\
+  (forall x, LasOracle.activeb (r_las r') x =
+             (x =? r_ts r) || (((x =? a) || LasOracle.activeb (r_las r) x) && negb (in_gapb (r_ts r) a x))).
+Proof.
+  intros HL Ht Hne H.
+  assert (Ha : 0 <= a < 128).
+  { destruct (Z.lt_ge_cases a 0); [rewrite C02Proofs.set_next_station_panics in H by lia; discriminate H|].
+    destruct (Z.lt_ge_cases a 128); [lia|rewrite C02Proofs.set_next_station_panics in H by lia; discriminate H]. }
+  rewrite C02Proofs.set_next_station_ok in H by assumption. injection H as <-.
+  set (r1 := mkRing (set_nth (r_las r) (Z.to_nat a) true) (r_state r) (r_ts r) (r_ns r) (r_ps r)).
+  destruct (C02Proofs.upd_fields r1 (r_ts r) a) as [Hlas [Hst [Hts [Hns _]]]].
+  assert (HL1 : length (r_las r1) = 128%nat) by (cbn; rewrite LasRep.set_nth_length; exact HL).
+  assert (Hact : forall x, LasOracle.activeb (r_las (C02Proofs.upd r1 (r_ts r) a)) x =
+             (x =? r_ts r) || (((x =? a) || LasOracle.activeb (r_las r) x) && negb (in_gapb (r_ts r) a x))).
+  { intros x. rewrite Hlas, C02Proofs.activeb_las_after by (assumption || lia).
+    cbn [r_las r1]. rewrite LasRep.activeb_set by lia.
+    destruct (Z.eqb_spec x (r_ts r)) as [E|E]; [reflexivity|]. cbn [orb].
+    assert (Hg : LasOracle.in_gapb (r_ts r) a x = in_gapb (r_ts r) a x).
+    { unfold LasOracle.in_gapb, in_gapb. destruct (r_ts r <? a).
+      - destruct (Z.leb_spec (r_ts r) x); destruct (Z.ltb_spec (r_ts r) x); try lia; reflexivity.
+      - destruct (Z.leb_spec (r_ts r) x); destruct (Z.ltb_spec (r_ts r) x); try lia; reflexivity. }
+    rewrite Hg. destruct (Z.eqb_spec x a); reflexivity. }
+  split; [exact Ha|]. split; [|split; [exact Hts|split; [exact Hst|split; [|exact Hact]]]].
+  - (* NS *)
+    rewrite Hns, <- Hlas.
+    set (las' := r_las (C02Proofs.upd r1 (r_ts r) a)) in *.
+    pose proof (LasRep.next_of_spec (las_ones las') (r_ts r) (LasRep.las_ones_sorted las')) as Hspec.
+    refine (LasRep.cyc_next_unique _ _ _ _ Hspec _).
+    assert (Hin : forall x, In x (las_ones las') <-> LasOracle.activeb las' x = true) by (intros x; apply LasRep.In_las_ones).
+    assert (Hina : In a (las_ones las')).
+    { apply Hin. rewrite Hact. rewrite Z.eqb_refl. cbn [orb andb].
+      unfold in_gapb. destruct (Z.ltb_spec (r_ts r) a).
+      - destruct (Z.ltb_spec a a); [lia|]. rewrite andb_false_r. apply orb_true_r.
+      - destruct (Z.ltb_spec (r_ts r) a); [lia|]. destruct (Z.ltb_spec a a); [lia|]. apply orb_true_r. }
+    unfold LasOracle.cyc_next. destruct (las_ones las') as [|x0 rest] eqn:El; [contradiction Hina|].
+    rewrite <- El in *. split; [exact Hina|].
+    assert (Hout : forall x, In x (las_ones las') -> x = r_ts r \/ in_gapb (r_ts r) a x = false).
+    { intros x Hx. apply Hin in Hx. rewrite Hact in Hx. apply orb_true_iff in Hx. destruct Hx as [Hx|Hx].
+      - left. apply Z.eqb_eq. exact Hx.
+      - right. apply andb_true_iff in Hx. destruct Hx as [_ Hx]. apply negb_true_iff. exact Hx. }
+    destruct (Z.lt_ge_cases (r_ts r) a) as [Hlt|Hge].
+    + left. split; [exact Hlt|]. intros x Hx Hgt. destruct (Hout x Hx) as [E|E]; [lia|].
+      unfold in_gapb in E. destruct (Z.ltb_spec (r_ts r) a); [|lia].
+      destruct (Z.ltb_spec (r_ts r) x); [|lia]. destruct (Z.ltb_spec x a); [discriminate E|lia].
+    + right. split.
+      * intros x Hx. destruct (Hout x Hx) as [E|E]; [lia|].
+        unfold in_gapb in E. destruct (Z.ltb_spec (r_ts r) a); [lia|].
+        destruct (Z.ltb_spec (r_ts r) x); [discriminate E|lia].
+      * intros x Hx. destruct (Hout x Hx) as [E|E]; [lia|].
+        unfold in_gapb in E. destruct (Z.ltb_spec (r_ts r) a); [lia|].
+        destruct (Z.ltb_spec (r_ts r) x); [discriminate E|]. destruct (Z.ltb_spec x a); [discriminate E|lia].
+  - rewrite Hlas, C02Proofs.las_after_length. exact HL1.
 Qed.
 
 Section WithApps.
@@ -727,14 +943,24 @@ Definition reply_sent (f f' : fdl) (src : Z) (st : resp_state) : Prop :=
 Definition gap_cursor_ok (f : fdl) : Prop :=
   0 <= ts f < p_hsa (f_p f) /\ forall c, f_gap f = GapDoPoll c -> 0 <= c < p_hsa (f_p f).
 
-Definition tx_app (f' : fdl) (calls' : list call) (wire : bytes) : Prop :=
+Definition tx_app (f f' : fdl) (calls' : list call) (wire : bytes) : Prop :=
   exists cs i hp er, calls' = cs ++ [CallTransmit i hp (Some (wire, er))] /\
+    (kind_of (f_state f) = KUseToken \/ kind_of (f_state f) = KAwaitDataResponse) /\
     (kind_of (f_state f') = KUseToken \/ kind_of (f_state f') = KAwaitDataResponse).
+
+(* listening / idle, or about to start listening (first poll after set_online) *)
+Definition idle_kind (f : fdl) : Prop :=
+  kind_of (f_state f) = KListenToken \/ kind_of (f_state f) = KActiveIdle \/
+  online_entry_kind (kind_of (f_state f)) = true.
 
 Definition tx_token (f f' : fdl) (now : Z) (wire : bytes) : Prop :=
   exists da, wire = encode_token da (ts f) /\
-    ((da = ts f /\ (f_state f' = ClaimToken StepSecondToken \/ f_state f' = ClaimToken StepScan)) \/
-     f_state f' = UseToken now None false \/ exists att, f_state f' = CheckTokenPass att).
+    ((da = ts f /\
+      ((f_state f' = ClaimToken StepSecondToken /\ (idle_kind f \/ f_state f = ClaimToken StepFirstToken)) \/
+       (f_state f' = ClaimToken StepScan /\ f_state f = ClaimToken StepSecondToken))) \/
+     ((f_state f' = UseToken now None false \/ exists att, f_state f' = CheckTokenPass att) /\
+      (kind_of (f_state f) = KPassToken \/ kind_of (f_state f) = KAwaitStatusResponse \/
+       kind_of (f_state f) = KCheckTokenPass))).
 
 Definition tx_gap (f f' : fdl) (wire : bytes) : Prop :=
   exists a, wire = sr_wire a (ts f) /\ in_gap (ts f) (r_ns (f_ring f)) a /\
@@ -748,7 +974,7 @@ Definition tx_reply (f f' : fdl) (wire : bytes) : Prop :=
   exists src st, wire = reply_wire src (ts f) st /\ reply_sent f f' src st.
 
 Definition tx_class (f f' : fdl) (now : Z) (calls calls' : list call) (wire : bytes) : Prop :=
-  tx_app f' calls' wire \/
+  tx_app f f' calls' wire \/
   (calls' = calls /\ (tx_token f f' now wire \/ tx_gap f f' wire \/ tx_reply f f' wire)).
 
 (* when the GAP state may change *)
@@ -769,7 +995,7 @@ Lemma tx_class_pre f0 f f' now calls calls' wire :
   f_p f = f_p f0 -> f_ring f = f_ring f0 -> f_state f = f_state f0 -> f_gap f = f_gap f0 ->
   tx_class f f' now calls calls' wire -> tx_class f0 f' now calls calls' wire.
 Proof.
-  intros Hp Hr Hs Hg. unfold tx_class, tx_token, tx_gap, tx_reply, reply_sent, gap_cursor_ok, ts. rewrite Hp, Hr, Hs, Hg. tauto.
+  intros Hp Hr Hs Hg. unfold tx_class, tx_app, tx_token, idle_kind, tx_gap, tx_reply, reply_sent, gap_cursor_ok, ts. rewrite Hp, Hr, Hs, Hg. tauto.
 Qed.
 
 Lemma gap_change_pre f0 f f' :
@@ -830,7 +1056,8 @@ Proof.
       right. left. exists att. split; [exact Es|]. rewrite G. exact Hstep.
   - split.
     + intros _. right. eexists. split; [exact T|]. right. split; [exact Hca|]. left.
-      eexists. split; [reflexivity|]. right. destruct St as [[_ S]|[_ S]]; [left; exact S|right; exists att; exact S].
+      eexists. split; [reflexivity|]. right. split; [|left; rewrite Es; reflexivity].
+      destruct St as [[_ S]|[_ S]]; [left; exact S|right; exists att; exact S].
     + split; [intros src Hm; destruct St as [[_ S]|[_ S]]; rewrite S in Hm; discriminate Hm|].
       destruct dg.
       * destruct G as [n [Hstep G]]. right. left. exists att. split; [exact Es|]. rewrite G. exact Hstep.
@@ -851,7 +1078,8 @@ Proof.
   - split; [intros Hn; left; rewrite T; exact Hn|]. split; [intros src Hm; rewrite S in Hm; discriminate Hm|left; exact Hg].
   - split.
     + intros _. right. eexists. split; [exact T|]. right. split; [exact Hca|]. left.
-      eexists. split; [reflexivity|]. right. destruct St as [[_ S]|[_ S]]; [left; exact S|right; exists AttFirst; exact S].
+      eexists. split; [reflexivity|]. right. split; [|right; left; rewrite Es; reflexivity].
+      destruct St as [[_ S]|[_ S]]; [left; exact S|right; exists AttFirst; exact S].
     + split; [intros src Hm; destruct St as [[_ S]|[_ S]]; rewrite S in Hm; discriminate Hm|left; exact Hg].
 Qed.
 
@@ -887,12 +1115,12 @@ Proof.
     + split; [intros Hn; left; rewrite T; exact Hn|]. split; [intros src Hm; left; rewrite <- S; exact Hm|exact HG].
     + split; [|split; [intros src Hm; rewrite S in Hm; discriminate Hm|exact HG]].
       intros _. right. eexists. split; [exact T|]. right. split; [exact Hca|]. left.
-      eexists. split; [reflexivity|]. left. split; [reflexivity|]. left. exact S.
+      eexists. split; [reflexivity|]. left. split; [reflexivity|]. left. split; [exact S|right; exact Es].
   - destruct Hcases as [Hrx [[T [S [G R]]]|[T0 [T [S [G R]]]]]].
     + split; [intros Hn; left; rewrite T; exact Hn|]. split; [intros src Hm; left; rewrite <- S; exact Hm|exact HG].
     + split; [|split; [intros src Hm; rewrite S in Hm; discriminate Hm|exact HG]].
       intros _. right. eexists. split; [exact T|]. right. split; [exact Hca|]. left.
-      eexists. split; [reflexivity|]. left. split; [reflexivity|]. right. exact S.
+      eexists. split; [reflexivity|]. left. split; [reflexivity|]. right. split; [exact S|exact Es].
   - destruct Hcases as [Hr [Hrx Hsc]]. destruct (Hscan True Hsc Hr (or_introl Es)) as [X Y]. split; [exact X|]. split; [exact Y|exact HG].
   - destruct Hcases as [Hne [Hg0 [rest [received [Hrcv [Hrx Hcs]]]]]].
     destruct Hcs as [[_ [T [S [G R]]]]|[[t [_ [_ [T [S _]]]]]|[[t [_ [_ [T [S _]]]]]|[_ [R Hsc]]]]].
@@ -913,10 +1141,11 @@ Qed.
 
 Lemma handle_lost_token_facts f now (w : W) f' w' d :
   handle_lost_token A f now w = Ok (f', w', d) ->
+  kind_of (f_state f) = KListenToken \/ kind_of (f_state f) = KActiveIdle ->
   if d then facts f f' w w' now /\ marker (f_state f') = None
   else same_but_lba f f' /\ w' = w.
 Proof.
-  unfold handle_lost_token. intros H.
+  unfold handle_lost_token. intros H Hkind.
   destruct (lba_get_or_insert f now) as [l f0] eqn:El.
   apply lba_get_or_insert_same in El. destruct El as [[Hp0 [Hr0 [Hc0 [Hg0 [Hs0 Hrest0]]]]] _].
   destruct (inst_diff now l); cbn [bind] in H; try discriminate H.
@@ -938,7 +1167,8 @@ Proof.
       rewrite Hts in *.
       split; [|split; [intros src Hm; rewrite S in Hm; discriminate Hm|right; right; right; left; split; [exact S|exact G]]].
       intros _. right. eexists. split; [exact T|]. right. split; [exact Hca|]. left.
-      eexists. split; [reflexivity|]. left. split; [reflexivity|]. left. exact S.
+      eexists. split; [reflexivity|]. left. split; [reflexivity|]. left. split; [exact S|]. left.
+      unfold idle_kind. tauto.
   - injection H as <- <- <-. split; [|reflexivity]. unfold same_but_lba. tauto.
 Qed.
 
@@ -1084,7 +1314,7 @@ Proof.
   unfold do_listen_token, assert_entry. intros H.
   destruct (f_state f) as [ | |sr0 cc0| | | | | | | ] eqn:Es; cbn [kind_of do_fn_entry state_kind_eqb bind] in H; try discriminate H.
   destruct (handle_lost_token A f now w) as [[[f0 w0] d]| |] eqn:Eh; cbn [bind] in H; try discriminate H.
-  apply handle_lost_token_facts in Eh. destruct d.
+  apply handle_lost_token_facts in Eh; [|rewrite Es; cbn; tauto]. destruct d.
   - injection H as <- <-. exact (proj1 Eh).
   - destruct Eh as [[Hp0 [Hr0 [Hc0 [Hg0 [Hs0 _]]]]] ->].
     rewrite Hs0, Es in H. cbn [get_listen_token bind] in H.
@@ -1125,7 +1355,7 @@ Proof.
   unfold do_active_idle, assert_entry. intros H.
   destruct (f_state f) as [ | | |sr0 nps0 cc0| | | | | | ] eqn:Es; cbn [kind_of do_fn_entry state_kind_eqb bind] in H; try discriminate H.
   destruct (handle_lost_token A f now w) as [[[f0 w0] d]| |] eqn:Eh; cbn [bind] in H; try discriminate H.
-  apply handle_lost_token_facts in Eh. destruct d.
+  apply handle_lost_token_facts in Eh; [|rewrite Es; cbn; tauto]. destruct d.
   - injection H as <- <-. exact (proj1 Eh).
   - destruct Eh as [[Hp0 [Hr0 [Hc0 [Hg0 [Hs0 _]]]]] ->].
     rewrite Hs0, Es in H. cbn [get_active_idle bind] in H.
@@ -1180,7 +1410,8 @@ Proof.
     + discriminate D.
     + unfold facts. split; [congruence|]. split; [|split].
       * intros _. right. eexists. split; [exact T|]. right. split; [congruence|]. left.
-        eexists. split; [rewrite Hts; reflexivity|]. right. destruct St as [[_ S]|[_ S]]; [left; exact S|right; eexists; exact S].
+        eexists. split; [rewrite Hts; reflexivity|]. right. split; [|right; right; rewrite Es; reflexivity].
+        destruct St as [[_ S]|[_ S]]; [left; exact S|right; eexists; exact S].
       * intros src Hm. destruct St as [[_ S]|[_ S]]; rewrite S in Hm; discriminate Hm.
       * left. congruence.
   - destruct (receive_all _ _ (f1, w, true) (w_rx w)) as [[[s1 rest] r]| |] eqn:Er; cbn [bind] in H; try discriminate H.
@@ -1254,7 +1485,7 @@ Qed.
 
 Definition use_facts (f f' : fdl) (w w' : W) : Prop :=
   f_p f' = f_p f /\ f_gap f' = f_gap f /\ marker (f_state f') = None /\
-  (w_tx w = None -> w_tx w' = None \/ exists wire, w_tx w' = Some wire /\ tx_app f' (w_calls w') wire).
+  (w_tx w = None -> w_tx w' = None \/ exists wire, w_tx w' = Some wire /\ tx_app f f' (w_calls w') wire).
 
 Lemma use_facts_facts f f' (w w' : W) now : use_facts f f' w w' -> facts f f' w w' now.
 Proof.
@@ -1327,7 +1558,7 @@ Proof.
         + injection Hfin as <- <-. destruct Q3 as [wire [cs [i [er [T [C K]]]]]].
           split; [congruence|]. split; [congruence|]. split.
           * destruct K as [K|K]; destruct (f_state f3); try discriminate K; reflexivity.
-          * intros _. right. exists wire. split; [exact T|]. exists cs, i, hp, er. split; assumption.
+          * intros _. right. exists wire. split; [exact T|]. exists cs, i, hp, er. split; [exact C|]. split; [left; rewrite Es; reflexivity|exact K].
         + destruct Q3 as [T K].
           apply trans_spec in Hfin. destruct Hfin as [s' [Htr [-> ->]]].
           unfold transition_pass_token in Htr. destruct (assert_kind _ _); cbn [bind] in Htr; try discriminate Htr. injection Htr as <-.
@@ -1377,7 +1608,11 @@ Proof.
       apply do_use_token_use_facts in H. destruct H as [F1 [F2 [F3 F4]]].
       cbn [set_st f_p f_gap f_state note log_call set_app set_rx w_tx w_calls w_rx] in F1, F2, F3, F4.
       apply use_facts_facts. unfold use_facts. split; [congruence|]. split; [congruence|]. split; [exact F3|].
-      intros Hn. apply F4. destruct (Nat.ltb _ _); exact Hn.
+      intros Hn.
+      assert (Hn' : w_tx (if Nat.ltb (length rest) (length (w_rx w)) then note A w TReplyRxDiscard else w) = None)
+        by (destruct (Nat.ltb _ _); exact Hn).
+      destruct (F4 Hn') as [X|[wire [X [cs [i [hp [er [C [_ K]]]]]]]]]; [left; exact X|].
+      right. exists wire. split; [exact X|]. exists cs, i, hp, er. split; [exact C|]. split; [right; rewrite Es; reflexivity|exact K].
     + injection H as <- <-. apply facts_silent; cbn; try congruence.
       match goal with |- context [if ?c then _ else _] => destruct c end; reflexivity.
 Qed.
@@ -1459,13 +1694,22 @@ Proof.
   destruct P9 as [P9|P9].
   - exact (facts_pre f f3 f' w w3 w' now P1 P2 P9 P3 P5 P6 P7 Hf).
   - assert (Hst : f_state f3 = ListenToken None 0 \/ f_state f3 = PassiveIdle) by (destruct P9 as [[_ X]|[_ X]]; [left|right]; exact X).
+    assert (Hidle : idle_kind f).
+    { unfold idle_kind. destruct P9 as [[X _]|[X _]]; [right; right; exact X|].
+      destruct (f_state f); cbn in X |- *; try discriminate X; tauto. }
     clear P9. destruct Hf as [F1 [F2 [F3 F4]]].
     assert (Hts : ts f3 = ts f) by (unfold ts; rewrite P1; reflexivity).
     unfold facts. split; [congruence|]. split; [|split].
     + intros Hn. rewrite <- P5 in Hn. destruct (F2 Hn) as [X|[wire [X Y]]]; [left; exact X|]. right. exists wire. split; [exact X|].
       rewrite <- P6. destruct Y as [Y|[Yc [Y|[Y|Y]]]].
-      * left. exact Y.
-      * right. split; [exact Yc|]. left. unfold tx_token in *. rewrite <- Hts. exact Y.
+      * exfalso. destruct Y as [cs [i [hp [er [_ [[K|K] _]]]]]]; destruct Hst as [Q|Q]; rewrite Q in K; discriminate K.
+      * right. split; [exact Yc|]. left. destruct Y as [da [Hw Y]]. exists da. rewrite <- Hts. split; [exact Hw|].
+        destruct Y as [[Hda [[S _]|[_ S]]]|[_ [K|[K|K]]]].
+        -- left. split; [exact Hda|]. left. split; [exact S|left; exact Hidle].
+        -- exfalso. destruct Hst as [Q|Q]; rewrite Q in S; discriminate S.
+        -- exfalso. destruct Hst as [Q|Q]; rewrite Q in K; discriminate K.
+        -- exfalso. destruct Hst as [Q|Q]; rewrite Q in K; discriminate K.
+        -- exfalso. destruct Hst as [Q|Q]; rewrite Q in K; discriminate K.
       * exfalso. destruct Y as [a [_ [_ [_ [_ [_ [[_ [att S]]|[_ [S|[a0 S]]]]]]]]]]; destruct Hst as [Q|Q]; rewrite Q in S; discriminate S.
       * exfalso. destruct Y as [src [st [_ [[cc [S _]]|[nps [cc [S _]]]]]]]; destruct Hst as [Q|Q]; rewrite Q in S; discriminate S.
     + intros src Hm. destruct (F3 src Hm) as [X|X].
@@ -1564,8 +1808,8 @@ Proof.
   intros H [Htx Hst]. destruct (tx o) as [wire|] eqn:Et; [|contradiction Htx; reflexivity].
   pose proof (poll_transmissions _ _ _ _ _ _ _ _ _ H Et) as Hc.
   destruct Hc as [Y|[Yc [Y|[Y|Y]]]].
-  - exfalso. destruct Y as [cs [i [hp [er [_ [K|K]]]]]]; destruct Hst as [S|S]; rewrite S in K; discriminate K.
-  - exfalso. destruct Y as [da [_ [[_ [S'|S']]|[S'|[att S']]]]]; destruct Hst as [S|S]; rewrite S in S'; discriminate S'.
+  - exfalso. destruct Y as [cs [i [hp [er [_ [_ [K|K]]]]]]]; destruct Hst as [S|S]; rewrite S in K; discriminate K.
+  - exfalso. destruct Y as [da [_ [[_ [[S' _]|[S' _]]]|[[S'|[att S']] _]]]]; destruct Hst as [S|S]; rewrite S in S'; discriminate S'.
   - destruct Y as [a' [Hw [Hin [Hr [Hring [Hg Hs]]]]]].
     assert (a' = a).
     { destruct Hs as [[S' _]|[S' _]]; destruct Hst as [S|S]; rewrite S in S'; try discriminate S'; injection S' as S'; symmetry; exact S'. }
@@ -1765,6 +2009,211 @@ Proof.
         -- left. split; [congruence|]. right. left. exact S'.
         -- left. split; [congruence|]. right. left. exact S'.
         -- right. exists a. split; [|congruence]. split; [cbn; rewrite T; discriminate|right; exact S'].
+Qed.
+
+(* ------------------------------------------------------------------------------------------ *)
+(* C12_sweep_bound on the model                                                                 *)
+
+Definition sweep_params_ok (f : fdl) : Prop :=
+  0 <= ts f < p_hsa (f_p f) /\ 0 <= r_ns (f_ring f) < p_hsa (f_p f) /\ p_hsa (f_p f) <= 126 /\
+  0 <= p_gap_wait (f_p f) <= 254.
+
+Lemma gap_visit_step_pure f : sweep_params_ok f -> gap_wf (p_hsa (f_p f)) (p_gap_wait (f_p f)) (f_gap f) ->
+  gap_visit_step f = Ok (gstep (ts f) (r_ns (f_ring f)) (p_hsa (f_p f)) (p_gap_wait (f_p f)) (f_gap f)).
+Proof.
+  intros [Ht [Hn [Hh Hgw]]] Hw.
+  assert (Hnx : forall c, 0 <= c < p_hsa (f_p f) ->
+    next_gap_poll f c = Ok (gnext (ts f) (r_ns (f_ring f)) (p_hsa (f_p f)) c)).
+  { intros c Hc. unfold next_gap_poll, gnext, nxt, u8_sub, u8_add.
+    destruct (Z.leb_spec 0 (p_hsa (f_p f) - 1)); [|lia]. cbn [bind].
+    destruct (Z.eqb_spec c (p_hsa (f_p f) - 1)); cbn [bind].
+    - destruct (in_gapb _ _ 0); reflexivity.
+    - destruct (Z.leb_spec (c + 1) 255); [|lia]. cbn [bind]. destruct (in_gapb _ _ (c + 1)); reflexivity. }
+  unfold gap_visit_step, gstep. destruct (f_gap f) as [rc|c]; cbn in Hw.
+  - destruct (Z.ltb_spec (p_gap_wait (f_p f)) rc); [apply Hnx; exact Ht|].
+    unfold u8_add. destruct (Z.leb_spec (rc + 1) 255); [reflexivity|lia].
+  - apply Hnx. exact Hw.
+Qed.
+
+(* the GAP states after each of the next m token visits while NS does not change *)
+Fixpoint visit_gaps (f : fdl) (m : nat) : res (list gap_state) :=
+  match m with
+  | O => Ok []
+  | S m' => let* g := gap_visit_step f in let* l := visit_gaps (set_gap f g) m' in Ok (g :: l)
+  end.
+
+Lemma visit_gaps_pure m : forall f, sweep_params_ok f -> gap_wf (p_hsa (f_p f)) (p_gap_wait (f_p f)) (f_gap f) ->
+  visit_gaps f m = Ok (giter (ts f) (r_ns (f_ring f)) (p_hsa (f_p f)) (p_gap_wait (f_p f)) (f_gap f) m).
+Proof.
+  induction m as [|m IH]; intros f Hok Hw; [reflexivity|].
+  cbn [visit_gaps giter]. rewrite (gap_visit_step_pure f Hok Hw). cbn [bind].
+  rewrite IH.
+  - reflexivity.
+  - exact Hok.
+  - destruct Hok as [Ht [Hn _]]. exact (gstep_wf _ _ _ _ _ Ht Hn Hw).
+Qed.
+
+(* C12_sweep_bound: as long as NS does not change, every address of the GAP is polled within
+   |GAP| + gap_wait_rotations + 2 token visits, from any GAP state *)
+Theorem sweep_bound f a :
+  sweep_params_ok f -> gap_wf (p_hsa (f_p f)) (p_gap_wait (f_p f)) (f_gap f) ->
+  in_gap (ts f) (r_ns (f_ring f)) a -> 0 <= a < p_hsa (f_p f) ->
+  exists m l, (1 <= m)%nat /\
+    Z.of_nat m <= gap_size (ts f) (r_ns (f_ring f)) (p_hsa (f_p f)) + p_gap_wait (f_p f) + 2 /\
+    visit_gaps f m = Ok (l ++ [GapDoPoll a]).
+Proof.
+  intros Hok Hw Hin Ha. pose proof Hok as [Ht [Hn [Hh Hgw]]].
+  destruct (visits_until_step _ _ _ _ _ _ Ht Hn (proj1 Hgw) Ha Hin Hw) as [Hr _].
+  set (v := visits_until (ts f) (r_ns (f_ring f)) (p_hsa (f_p f)) (p_gap_wait (f_p f)) a (f_gap f)) in *.
+  destruct (sweep_bound_pure _ _ _ _ _ Ht Hn (proj1 Hgw) Ha Hin (Z.to_nat (v - 1)) (f_gap f) Hw) as [l Hl]; [fold v; lia|].
+  exists (S (Z.to_nat (v - 1))), l. split; [lia|]. split; [lia|].
+  rewrite (visit_gaps_pure _ f Hok Hw), Hl. reflexivity.
+Qed.
+
+(* gap_size is the number of GAP addresses: they correspond one to one to the offsets 1 .. gap_size *)
+Lemma gap_offsets t n H x : 0 <= t < H -> 0 <= n < H -> 0 <= x < H ->
+  (in_gap t n x <-> 1 <= off t H x <= gap_size t n H).
+Proof.
+  intros Ht Hn Hx. rewrite <- in_gapb_spec, (in_gapb_off t n H x Ht Hn Hx), andb_true_iff, !Z.leb_le. tauto.
+Qed.
+
+Lemma gap_offsets_onto t n H k : 0 <= t < H -> 0 <= n < H -> 1 <= k <= gap_size t n H ->
+  exists x, 0 <= x < H /\ off t H x = k /\ in_gap t n x.
+Proof.
+  intros Ht Hn Hk. pose proof (gap_size_range t n H Ht Hn).
+  exists (if t + k <? H then t + k else t + k - H).
+  assert (Hx : 0 <= (if t + k <? H then t + k else t + k - H) < H) by (destruct (Z.ltb_spec (t + k) H); lia).
+  assert (Ho : off t H (if t + k <? H then t + k else t + k - H) = k).
+  { unfold off. destruct (Z.ltb_spec (t + k) H); [destruct (Z.leb_spec t (t + k)); lia|destruct (Z.leb_spec t (t + k - H)); lia]. }
+  split; [exact Hx|]. split; [exact Ho|]. apply (gap_offsets t n H _ Ht Hn Hx). lia.
+Qed.
+
+(* ------------------------------------------------------------------------------------------ *)
+(* C12_found_becomes_successor                                                                  *)
+
+(* when the prologue of poll_inner lets the poll through to the state function *)
+Lemma poll_inner_dispatches f now (w : W) :
+  f_conn f = ConnOnline -> online_entry_kind (kind_of (f_state f)) = false ->
+  (forall l, f_lba f = Some l -> l < now) ->
+  poll_inner ops f now false w =
+  dispatch (fst (check_for_bus_activity A f now w)) now (snd (check_for_bus_activity A f now w)).
+Proof.
+  intros Hc Hk Hl. unfold poll_inner. rewrite Hc, Hk. cbn [bind].
+  unfold check_for_ongoing_transmision.
+  assert (Hp : ongoing_uses_predicted_end && match f_lba f with Some l => now <=? l | None => false end = false).
+  { destruct (f_lba f) as [l|]; [|apply andb_false_r]. specialize (Hl l eq_refl).
+    destruct (Z.leb_spec now l); [lia|apply andb_false_r]. }
+  rewrite Hp. cbn [orb].
+  destruct (check_for_bus_activity A f now w) as [f3 w3]. reflexivity.
+Qed.
+
+Lemma check_for_bus_activity_pre f now (w : W) :
+  pre_rel f (fst (check_for_bus_activity A f now w)) w (snd (check_for_bus_activity A f now w)).
+Proof.
+  unfold check_for_bus_activity. destruct (Nat.ltb _ _); cbn [fst snd]; [|apply pre_rel_refl].
+  unfold pre_rel, mark_bus_activity, lba_get_or_insert. destruct (f_lba f); cbn; repeat (split; [reflexivity|]); left; reflexivity.
+Qed.
+
+Lemma receive_telegram_accept (buf : bytes) t n :
+  decode buf = Ok (Accept t n) -> receive_telegram (fun t => t) buf = Ok (skipn n buf, Some t).
+Proof. intros H. unfold receive_telegram. rewrite H. reflexivity. Qed.
+
+Lemma receive_telegram_some (buf rest : bytes) t :
+  receive_telegram (fun t => t) buf = Ok (rest, Some t) -> exists n, decode buf = Ok (Accept t n) /\ rest = skipn n buf.
+Proof.
+  unfold receive_telegram. destruct (decode buf) as [d| |]; cbn [bind]; try discriminate.
+  destruct d as [ | |t' n]; try discriminate. intros H. injection H as <- <-. exists n. split; reflexivity.
+Qed.
+
+Lemma master_ready_is_reply tsa a t : is_master_ready_reply tsa a t -> is_reply_from tsa a t.
+Proof. intros [h [pdu [st [Ht [Hfc [_ [Hs Hd]]]]]]]. exists h, pdu, st, StOk. repeat split; assumption. Qed.
+
+(* a status reply "master ready / master in ring" from the polled address makes it the successor *)
+Theorem found_becomes_successor f now pin (apps : list A) f' o apps' calls a0 t n :
+  poll ops f now pin apps = Ok (f', o, apps', calls) ->
+  (f_state f = AwaitStatusResponse a0 \/ f_state f = ClaimToken (StepScanAwaitResponse a0)) ->
+  f_conn f = ConnOnline -> tx_busy pin = false -> (forall l, f_lba f = Some l -> l < now) ->
+  decode (rx pin) = Ok (Accept t n) -> is_master_ready_reply (ts f) a0 t ->
+  a0 <> ts f /\ set_next_station (f_ring f) a0 = Ok (f_ring f') /\ tx o = None /\ rx_left o = skipn n (rx pin) /\
+  f_gap f' = f_gap f /\ calls = [] /\ f_p f' = f_p f /\
+  (f_state f = AwaitStatusResponse a0 -> f_state f' = PassToken false AttFirst) /\
+  (f_state f = ClaimToken (StepScanAwaitResponse a0) -> f_state f' = ClaimToken StepScan).
+Proof.
+  intros H Hst Hc Hb Hl Hd Hm. apply poll_unfold in H. destruct H as [w' [Hi [-> [_ ->]]]]. cbn [tx rx_left].
+  rewrite Hb in Hi.
+  assert (Hk : online_entry_kind (kind_of (f_state f)) = false) by (destruct Hst as [S|S]; rewrite S; reflexivity).
+  rewrite (poll_inner_dispatches f now _ Hc Hk Hl) in Hi.
+  pose proof (check_for_bus_activity_pre f now (mkWorld (rx pin) None apps [] [])) as Hpre.
+  destruct (check_for_bus_activity A f now _) as [f3 w3]. cbn [fst snd] in Hi, Hpre.
+  assert (Hs3 : f_state f3 = f_state f)
+    by (apply (pre_rel_state _ _ _ _ Hpre); destruct Hst as [S|S]; rewrite S; reflexivity).
+  destruct Hpre as [P1 [P2 [P3 [P4 [P5 [P6 [P7 [P8 _]]]]]]]]. cbn in P5, P6, P7.
+  assert (Hts : ts f3 = ts f) by (unfold ts; rewrite P1; reflexivity).
+  unfold dispatch in Hi. rewrite Hs3 in Hi.
+  destruct Hst as [S|S]; rewrite S in Hi; cbn [kind_of poll_dispatch] in Hi.
+  - apply do_await_status_response_spec in Hi.
+    destruct Hi as [a0' [Est [Hne [Hg0 [Hp [Hc' [Hca [Hap [Hg [rest [received [Hrcv [Hrx Hcases]]]]]]]]]]]]].
+    rewrite Hs3, S in Est. injection Est as <-.
+    rewrite P7, (receive_telegram_accept _ _ _ Hd) in Hrcv. injection Hrcv as <- <-.
+    rewrite Hts, P2 in Hcases.
+    destruct Hcases as [[C _]|[[t' [C [_ [T [S' Hr]]]]]|[[t' [C [Hnf _]]]|[C _]]]]; try discriminate C.
+    + injection C as <-. destruct Hr as [[_ Hr]|[Hn _]]; [|contradiction].
+      split; [rewrite <- Hts; exact Hne|].
+      split; [exact Hr|]. split; [congruence|]. split; [exact Hrx|]. split; [congruence|]. split; [congruence|]. split; [congruence|].
+      split; [intros _; exact S'|intros X; rewrite S in X; discriminate X].
+    + injection C as <-. exfalso. apply Hnf. apply master_ready_is_reply. exact Hm.
+  - apply do_claim_token_spec in Hi. destruct Hi as [st0 [Est [Hp [Hc' [Hca [Hap Hcases]]]]]].
+    rewrite Hs3, S in Est. injection Est as <-.
+    destruct Hcases as [Hne [Hg0 [rest [received [Hrcv [Hrx Hcs]]]]]].
+    rewrite P7, (receive_telegram_accept _ _ _ Hd) in Hrcv. injection Hrcv as <- <-.
+    rewrite Hts, P2 in Hcs.
+    destruct Hcs as [[C _]|[[t' [C [_ [T [S' [G Hr]]]]]]|[[t' [C [Hnf _]]]|[C _]]]]; try discriminate C.
+    + injection C as <-. destruct Hr as [[_ Hr]|[Hn _]]; [|contradiction].
+      split; [rewrite <- Hts; exact Hne|].
+      split; [exact Hr|]. split; [congruence|]. split; [exact Hrx|]. split; [congruence|]. split; [congruence|]. split; [congruence|].
+      split; [intros X; rewrite S in X; discriminate X|intros _; exact S'].
+    + injection C as <-. exfalso. apply Hnf. apply master_ready_is_reply. exact Hm.
+Qed.
+
+(* any other reply, a reply from another address, a time-out, or a poll that does not get as far:
+   the ring view is unchanged - except that a time-out in AwaitStatusResponse goes straight on to pass
+   the token, to the unchanged NS, and records that pass *)
+Theorem successor_unchanged_otherwise f now pin (apps : list A) f' o apps' calls a0 :
+  poll ops f now pin apps = Ok (f', o, apps', calls) ->
+  (f_state f = AwaitStatusResponse a0 \/ f_state f = ClaimToken (StepScanAwaitResponse a0)) ->
+  ~ (exists t n, decode (rx pin) = Ok (Accept t n) /\ is_master_ready_reply (ts f) a0 t) ->
+  f_ring f' = f_ring f \/
+  (f_state f = AwaitStatusResponse a0 /\ tx o = Some (encode_token (r_ns (f_ring f)) (ts f)) /\
+   witness (f_ring f) (ts f) (r_ns (f_ring f)) = Ok (f_ring f')).
+Proof.
+  intros H Hst Hno. apply poll_unfold in H. destruct H as [w' [Hi [-> [_ ->]]]]. cbn [tx].
+  apply poll_inner_cases in Hi. destruct Hi as [Hpre|[f3 [w3 [Hpre Hd]]]].
+  - left. destruct Hpre as [_ [P2 _]]. exact P2.
+  - assert (Hs3 : f_state f3 = f_state f)
+      by (apply (pre_rel_state _ _ _ _ Hpre); destruct Hst as [S|S]; rewrite S; reflexivity).
+    destruct Hpre as [P1 [P2 [P3 [P4 [P5 [P6 [P7 [P8 _]]]]]]]]. cbn in P5, P6, P7.
+    assert (Hts : ts f3 = ts f) by (unfold ts; rewrite P1; reflexivity).
+    unfold dispatch in Hd. rewrite Hs3 in Hd.
+    destruct Hst as [S|S]; rewrite S in Hd; cbn [kind_of poll_dispatch] in Hd.
+    + apply do_await_status_response_spec in Hd.
+      destruct Hd as [a0' [Est [Hne [Hg0 [Hp [Hc' [Hca [Hap [Hg [rest [received [Hrcv [Hrx Hcases]]]]]]]]]]]]].
+      rewrite Hs3, S in Est. injection Est as <-. rewrite P7 in Hrcv. rewrite Hts, P2 in Hcases.
+      destruct Hcases as [[_ [_ [_ R]]]|[[t' [C [_ [_ [_ Hr]]]]]|[[t' [_ [_ [_ [_ R]]]]]|[_ [[_ [_ R]]|[T0 [T [Wi _]]]]]]]].
+      * left. congruence.
+      * destruct Hr as [[Hm _]|[_ R]]; [|left; congruence].
+        exfalso. apply Hno. subst received. apply receive_telegram_some in Hrcv. destruct Hrcv as [n [Hd' _]].
+        exists t', n. split; assumption.
+      * left. congruence.
+      * left. congruence.
+      * right. split; [exact S|]. split; assumption.
+    + apply do_claim_token_spec in Hd. destruct Hd as [st0 [Est [Hp [Hc' [Hca [Hap Hcases]]]]]].
+      rewrite Hs3, S in Est. injection Est as <-.
+      destruct Hcases as [Hne [Hg0 [rest [received [Hrcv [Hrx Hcs]]]]]]. rewrite P7 in Hrcv. rewrite Hts, P2 in Hcs.
+      left.
+      destruct Hcs as [[_ [_ [_ [_ R]]]]|[[t' [C [_ [_ [_ [_ Hr]]]]]]|[[t' [_ [_ [_ [_ [_ R]]]]]]|[_ [R _]]]]]; try congruence.
+      destruct Hr as [[Hm _]|[_ R]]; [|congruence].
+      exfalso. apply Hno. subst received. apply receive_telegram_some in Hrcv. destruct Hrcv as [n [Hd' _]].
+      exists t', n. split; assumption.
 Qed.
 
 End WithApps.
